@@ -11,8 +11,9 @@ import sys; sys.path.insert(0,'/verif/tools'); import props
 p=props.PROPS[sys.argv[1]]
 gens = p.get("gens") or [[p["mode"]] + extra for extra in p.get("gen", [[]])]
 for g in gens: print(g[0], "quick", "1", *g[1:])
+open('/tmp/try_mode.txt','w').write(p["mode"])
 PY
-( for f in corpus/$pid/*.trace; do [ -f "$f" ] && ./harness/target/release/harness replay conn "$f"; done
+( for f in corpus/$pid/*.trace; do [ -f "$f" ] && ./harness/target/release/harness replay $(cat /tmp/try_mode.txt) "$f"; done
   while read -r line; do ./harness/target/release/harness $line; done < /tmp/try_gens.txt ) 2>/dev/null | ./lean/.lake/build/bin/mqttdrv | grep "^VIOL\|^MDIFF\|^SUMMARY" | grep -v "sig=C05 qos2_dup\|adopted_version" | cut -c1-${3:-400}
 git -C /repo checkout -- .
 (cd harness && CARGO_NET_OFFLINE=true cargo build --release 2>&1 | tail -1)
